@@ -358,6 +358,13 @@ def r2(ctx):
         sub_calls = _sub_calls(stmts, tainted)
         sync = [c for c in sub_calls if enclosing_fn(c) is fi.node]
         deferred = [c for c in sub_calls if enclosing_fn(c) is not fi.node]
+        # closures defined outside the loop body (hoisted wrapper) see the loop variables by name
+        for d in walk(fi.node, into_defs=True):
+            if isinstance(d, FUNC_TYPES) and d is not fi.node:
+                for c in calls(d, into_defs=True):
+                    if isinstance(c.func, ast.Name) and c.func.id in tainted and not any(c is x for x in sub_calls):
+                        sub_calls.append(c)
+                        deferred.append(c)
         ctx.floor(R, "subscriber callable invocations", len(sub_calls), 2)
         book = []
         for c in [c for st in stmts for c in calls(st)]:
@@ -733,7 +740,78 @@ def r7(ctx):
                f"{detail}: a claimed message would still be offered to later addons / the claim would be lost")
 
 
+# --------------------------------------------------------------------------- R8
+
+MH = "hippolyzer/lib/base/message/message_handler.py"
+
+
+def r8(ctx):
+    repo = ctx.repo
+    R = "C07.R8"
+    ctx.rule(R, "MessageHandler: a taking subscriber (its body calls .take()) registered on several notifiers is "
+                "removed from every one of them - by a loop over the same notifier collection on every normal "
+                "path of the subscriber itself, or in a finally of the registering method (one-shot / truthy-return "
+                "unsubscription only removes it from the Event that fired)")
+    from .common import inlined_funcinfo
+    mh = repo.cls("MessageHandler", MH)
+    found = 0
+    for name, m0 in sorted(mh.methods.items()):
+        m = inlined_funcinfo(repo, m0)
+        for h in [d for d in walk(m.node, into_defs=True) if isinstance(d, FUNC_TYPES) and d is not m.node]:
+            if not any(call_attr(c) == "take" and not c.args for c in calls(h)):
+                continue
+            # where is h registered?
+            colls = set()
+            for loop in [l for l in walk(m.node) if isinstance(l, (ast.For, ast.AsyncFor)) and isinstance(l.iter, ast.Name)]:
+                lv = ap(loop.target)
+                for c in find_calls(loop, "subscribe", into_defs=False):
+                    if c.args and ap(c.args[0]) == h.name and isinstance(c.func, ast.Attribute) and ap(c.func.value) == lv:
+                        colls.add(loop.iter.id)
+            for st in stores(m.node, into_defs=False):
+                if st.kind == "assign" and isinstance(st.target, ast.Name) and isinstance(st.value, ast.Call) and \
+                        any(ap(a) == h.name for a in st.value.args) and "subscribe" in (call_attr(st.value) or ""):
+                    colls.add(st.path)   # notifiers = self._subscribe_all(names, handler, ...)
+            if not colls:
+                continue
+            for _ in range(3):   # plain aliases of the collection (x = notifiers)
+                for st in stores(m.node, into_defs=False):
+                    if st.kind == "assign" and isinstance(st.target, ast.Name) and isinstance(st.value, ast.Name) \
+                            and st.value.id in colls:
+                        colls.add(st.path)
+            found += 1
+
+            def unsub_loops(root, into):
+                out = []
+                for loop in [l for l in walk(root, into_defs=into) if isinstance(l, (ast.For, ast.AsyncFor))]:
+                    if isinstance(loop.iter, ast.Name) and loop.iter.id in colls:
+                        lv = ap(loop.target)
+                        if any(c.args and ap(c.args[0]) == h.name and isinstance(c.func, ast.Attribute)
+                               and ap(c.func.value) == lv for c in find_calls(loop, "unsubscribe", into_defs=False)):
+                            out.append(loop)
+                return out
+            # (a) inside the subscriber, on every normal path
+            ok_a = False
+            inner = unsub_loops(h, False)
+            if inner:
+                hcfg = CFG(h)
+                pn = {n for n in hcfg.nodes if n.kind == "loop" and any(n.ast is l for l in inner)}
+                ok_a = cfg_search(hcfg, [hcfg.entry], target=lambda n: n is hcfg.exit, avoid=lambda n: n in pn,
+                                  follow_exc=lambda n: False) is None
+            # (b) in a finally of the registering method
+            ok_b = any(any(isinstance(a, ast.Try) and any(l is s_ or any(l is x for x in ast.walk(s_)) for s_ in a.finalbody)
+                           for a in ancestors(l)) for l in unsub_loops(m.node, False))
+            ctx.ob(R, f"{m.qual}: taking subscriber {h.name} is removed from every notifier it was registered on",
+                   ok_a or ok_b, ctx.w(m, h),
+                   "the subscriber stays registered under the other message names: it keeps take()ing messages / flows "
+                   "that nobody consumes (never forwarded, never handed back)")
+    ctx.floor(R, "taking subscribers registered on several notifiers", found, 2)
+
+
+r4 = r6 = r4_r6
+
+
 def run(ctx):
+    r8(ctx)
     r1(ctx)
     r2(ctx)
     r3(ctx)
